@@ -1,6 +1,22 @@
 """Per-property manifest metadata.  bin/mkmanifest renders MANIFEST.json from this."""
 
 CHECKS = {
+    "C01": dict(
+        text="spec/AshLink.tla composes the host as bellows implements it (AshHost.tla, fine-grained: receive, ACK timer, task resume, "
+             "next waiter, caller cancellation) with a faulty FIFO line (deliver, drop, corrupt, duplicate, stall via timers, budgeted) "
+             "and a specification-conforming NCP (AshNcp.tla: window 1..3, cumulative ACKs, reject condition, retransmit-all). TLC checks "
+             "exhaustively (millions of states per configuration, counters starting at 0/0 and 7/6) that what each side hands up is an "
+             "in-order duplicate-free subsequence of what the other submitted, that an ok send was delivered exactly once, a failed one at "
+             "most once, that NCP-acknowledged frames were handed up, and that cancellation changes no link state. The real AshProtocol "
+             "then runs against the simulated NCP over the faulty line along TLC-simulated behaviours, every assignment of 5 line "
+             "behaviours to the first 4 (quick) / 6 (thorough) serviced frames for windows 1..3, and long random fault runs with "
+             "cancellations; TLC validates each run against Trace_AshLink (host steps vs AshHost, NCP steps vs AshNcp, FIFO line "
+             "consistency) with the delivery invariants evaluated on every state.",
+        design_ref="3/C01",
+        note="Trusted: simulated NCP (transcription of AshNcp.tla, each of its steps validated against that spec in the same traces), "
+             "FIFO line with detectable corruption (real bit flips; the host's own CRC rejects them), virtual-time loop, ashref.py.",
+        technique="TLA+ spec + TLC exhaustive model check of host||line||NCP; TLC-simulated behaviours and enumerated fault assignments replayed into the code; TLC trace validation",
+    ),
     "C02": dict(
         text="spec/AshRx.tla is the reference decoder of the receive path, one byte per step (flag, cancel, substitute, XON/XOFF, "
              "unstuffing with reserved-value check, CRC/length checks from AshCodec.tla, frame handling from AshHost.tla). AshRxMC "
